@@ -1090,6 +1090,59 @@ def build_inpackage():
     return out
 
 
+BULK_MODEL = ("(no packet-level model line: C05_session_never_closed_by_expiry / C05_timed_downstream_written_was_accepted state the "
+              "clause; kcp-go's ARQ is a library)")
+
+
+def gen_bulk(rng, idx, quick):
+    """A bulk DOWNSTREAM transfer (real kcp-go/smux client, as client/lib sets them up) whose carrier is cut in the middle; the
+    client stays without any carrier for `gap` ms (far below the one-minute retention) and returns on a new carrier with the
+    same ClientID. The session must continue: one accepted connection, every byte the application wrote arrives, in order."""
+    MiB = 1 << 20
+    # the cut comes shortly after the client has consumed k x 512 KiB: smux (v2) has then just re-opened the stream window, so
+    # that a whole window (1 MiB = client/lib's and the server's StreamSize) is in flight / unacknowledged while there is no
+    # carrier - the heaviest load one stream can put on the session's outgoing queue; k = None: anywhere
+    if quick:
+        total, k, gap = [(2 * MiB, 1, 3500), (3 * MiB, 2, 4000)][idx % 2]
+    else:
+        total, k, gap = [(2 * MiB, 1, 3000), (3 * MiB, 2, 3500), (4 * MiB, 2, 4000), (6 * MiB, 2, 4000), (4 * MiB, None, 3000),
+                         (2 * MiB, 1, 50)][idx % 6]
+    if k is None:
+        cut = rng.randrange(512 * 1024, total - MiB)
+    else:
+        cut = k * 512 * 1024 + rng.randrange(8 * 1024, 64 * 1024)
+    sid = "%08x" % (0xb0000000 | (rng.getrandbits(20) << 8) | idx)
+    line = "carrierlayer bulk i%s,%d,%d,%d,%d" % (sid, total, cut, gap, rng.randrange(1 << 30))
+    return line, dict(total=total, cut=cut, gap=gap)
+
+
+def bulk_meta(line):
+    f = line.split(" ")[2].split(",")
+    return dict(total=int(f[1]), cut=int(f[2]), gap=int(f[3]))
+
+
+def check_bulk(meta, o):
+    """[(key, text)] for one answer of the black-box driver to a `carrierlayer bulk` line"""
+    if o.startswith("!"):
+        return [("driver-" + o.split(" ")[0].strip("!:").split(":")[0], "driver failure: " + o[:200])]
+    d = parse_impl(o)
+    bad = []
+    acc, got = int(d.get("accepted", -1)), int(d.get("got", -1))
+    how = "cut after %d of %d bytes, %d ms without a carrier, then a new carrier with the same ClientID" % (meta["cut"], meta["total"], meta["gap"])
+    if acc > 1:
+        bad.append(("session-split-on-move", "%d connections accepted for ONE session that moved to a new carrier (%s)" % (acc, how)))
+    elif acc != 1:
+        bad.append(("session-not-accepted", "no connection accepted for a session of a real kcp/smux client (%s)" % how))
+    if d.get("intact") != "1":
+        bad.append(("session-stream-broken", "the downstream byte stream of the session is not what the application wrote (%d bytes "
+                    "received; %s)" % (got, how)))
+    if got < meta["total"] or d.get("werr") != "0":
+        bad.append(("downstream-not-delivered", "only %d of %d bytes the application wrote reached the client after it returned on a new "
+                    "carrier %d ms later (far below the retention): the session did not continue%s (carrier cut after %d bytes)" % (
+                        got, meta["total"], meta["gap"], "; the application's Write failed" if d.get("werr") != "0" else "", meta["cut"])))
+    return bad
+
+
 def run(ctx):
     env = dict(os.environ, VERIF_DRIVER="c05")
     ctx.assumptions += ["model = coq/Model/CarrierLayer.v over Model/Encap.v; QueuePacketConn queues as bounded FIFOs (proved for the code in C17)",
@@ -1103,6 +1156,9 @@ def run(ctx):
     ctx.trusted.append("harness/overlay/zz_verif/c05bb/main.go: black-box driver, exported API only (Transport.Listen + Accept, gorilla/websocket "
                        "carriers); harness/overlay/server/lib/zz_verif_c05_test.go: second, in-package view (real httpHandler with a driver-owned "
                        "QueuePacketConn: packets instead of streams)")
+    ctx.assumptions.append("bulk scenarios (black box): a real kcp-go/smux client with client/lib's settings over a re-bindable packet conn "
+                           "receives 1-6 MiB downstream; its carrier is closed in the middle, it has no carrier for 2-4 s (really waited; "
+                           "control: 50 ms) and returns on a new carrier with the same ClientID; up to 60 s are allowed for the rest to arrive")
     quick = ctx.tier == "quick"
     # ---- the black-box view: always available (nothing unexported is used)
     bb = vlib.go_build("./zz_verif/c05bb")
@@ -1177,12 +1233,16 @@ def run(ctx):
     xmlines += ["carrierlayer frun " + ",".join(mops) for _, mops, _ in fails]
     xmout = vlib.run_model(xmlines)
     blines = ["carrierlayer move " + ",".join(ops) for ops, _, _ in moves]
+    # bulk downstream transfers across a carrier gap: in the same server process, concurrently with the moves
+    bulks = [gen_bulk(ctx.rng, i, quick) for i in range(2 if quick else 6)]
+    blines += [l for l, _ in bulks]
     rc, bout, err = vlib.run_impl(bb, blines, timeout=1800)
     for t in threads:
         t.join()
     if rc != 0 or len(bout) != len(blines):
         ctx.violation("driver-crash", "black-box server driver died rc=%s: %s" % (rc, err[-800:]), dict(stderr=err[-3000:]))
         return
+    blines, bout, bulk_out = blines[:len(moves)], bout[:len(moves)], bout[len(moves):]
     lines += blines
     out += bout
     pos = 0
@@ -1283,6 +1343,12 @@ def run(ctx):
             mst = md.get("k%d" % t["i"], "token::").split(":")[0]
             if t["must_close"] and (mst == "dead") != (ist == "closed") and not bad:
                 ctx.not_shown("correspondence carrierlayer (move): carrier %d: model %s, implementation %s: case=%s" % (t["i"], mst, ist, ml[:400]))
+    # ---- bulk downstream transfer, carrier cut in the middle, a gap below the retention, a new carrier: the session continues
+    for (line, meta), o in zip(bulks, bulk_out):
+        ctx.count(line, kind="bulk-downstream-gap")
+        rep = dict(case=line, impl=o[:3000], model=BULK_MODEL, driver="c05bb")
+        for key, text in check_bulk(meta, o):
+            ctx.violation(key, text, rep)
     # ---- one carrier's oversized packet (own server): the other sessions go on, a new one is accepted
     rc, oout, err = side["over"]
     if rc != 0 or len(oout) != len(olines):
@@ -1357,8 +1423,11 @@ def replay(ctx, doc):
             continue
         if v["replay"].get("env") == "fail1":
             env = dict(env, GOMAXPROCS="1", VERIF_C05_SERIAL="1")
-        if case.startswith("carrierlayer move "):
+        if case.startswith("carrierlayer move ") or case.startswith("carrierlayer bulk "):
             rc, out, err = vlib.run_impl(vlib.go_build("./zz_verif/c05bb"), [case])
+            if case.startswith("carrierlayer bulk "):
+                for key, text in check_bulk(bulk_meta(case), out[0] if out else "!died"):
+                    print(" [%s] %s" % (key, text))
         else:
             rc, out, err = vlib.run_impl(build_inpackage(), [case], args=["-test.run", "^TestVerifC05Driver$"], env=env)
         print("case: %s\n impl: %s" % (case[:400], out[0][:2000] if out else "!died"))
